@@ -198,8 +198,10 @@ def project_post(pre_lines: list, pre_ids: list, post: dict) -> list:
 C_LOCALE = {"LC_ALL": "C", "LANG": "C", "PYTHONUTF8": "0", "PYTHONCOERCECLOCALE": "0"}
 
 
-def annotate(root: Path, files: list, opts: list, cwd=None, locale_c: bool = False) -> dict:
+def annotate(root: Path, files: list, opts: list, cwd=None, locale_c: bool = False, hashseed=None) -> dict:
     args = ["--root", str(root), "annotate", *opts, *[str(f) for f in files]]
+    if hashseed is not None:      # the order in which the files of one invocation are visited follows the string hash seed
+        return core.run_reuse_subprocess(args, cwd=cwd, env={"PYTHONHASHSEED": str(hashseed)})
     if locale_c:       # a fresh interpreter whose locale is not UTF-8 (what it writes is UTF-8 all the same)
         return core.run_reuse_subprocess(args, cwd=cwd, env=C_LOCALE)
     return core.run_reuse(args, cwd=cwd)
